@@ -49,7 +49,7 @@ def run(prog, rep):
     rep.floor("C12-R1", 20)
     rep.floor("C12-R2", 2)
     # R3
-    eng = terms.Engine(prog, inline=False)
+    eng = terms.Engine(prog, inline=True, hooks=E.eval_hooks())       # private helpers of the layer are inlined
     f = prog.lib_fn(E.ALG + "compute_steady_states")
     if f is None:
         rep.unresolved("C12-R3", "compute_steady_states", "", "function not found")
